@@ -399,6 +399,7 @@ func c12Case(c *core.Case) {
 	kinds := map[string]bool{}
 	removedNames := []string{}
 	var removedBlocks []*hclwrite.Block
+	removedItems := map[*hclwrite.Block]*mItem{}
 	nops := 1 + r.Intn(40)
 	if c.Tier == "quick" {
 		nops = 1 + r.Intn(25)
@@ -459,7 +460,7 @@ func c12Case(c *core.Case) {
 			}
 			b.touchUp()
 		}
-		op := r.Intn(11)
+		op := r.Intn(12)
 		switch op {
 		case 0, 1:
 			name := pickAttrName()
@@ -494,6 +495,11 @@ func c12Case(c *core.Case) {
 			history = append(history, fmt.Sprintf("%s: SetAttributeRaw(%q, %s)", bodyPath(b), name, raw))
 			record()
 			setAttr(name, stripBlank([]byte(raw)), func() { b.w.SetAttributeRaw(name, wt) })
+			// the caller re-uses its token buffer for something else: the file
+			// keeps what it was given
+			for i := range wt {
+				wt[i] = &hclwrite.Token{Type: hclsyntax.TokenIdent, Bytes: []byte("clobbered")}
+			}
 			kinds["SetAttributeRaw"] = true
 		case 4:
 			from, to := pickAttrName(), pickAttrName()
@@ -572,9 +578,53 @@ func c12Case(c *core.Case) {
 					}
 				}
 				removedBlocks = append(removedBlocks, target)
+				removedItems[target] = mi
 				b.touchUp()
 			}
 			kinds["RemoveBlock"] = true
+		case 11:
+			// move: a block removed earlier is appended again (here or elsewhere)
+			var cands []*hclwrite.Block
+			for _, rb := range removedBlocks {
+				if removedItems[rb] != nil {
+					cands = append(cands, rb)
+				}
+			}
+			if len(cands) == 0 {
+				continue
+			}
+			target := gen.Pick(r, cands)
+			mi := removedItems[target]
+			// (not into itself or its own descendants)
+			inside := false
+			for p := b; p != nil; {
+				if p.owner == mi {
+					inside = true
+				}
+				if p.owner == nil {
+					break
+				}
+				p = c12Parent[p.owner]
+			}
+			if inside {
+				continue
+			}
+			appendsInto("")
+			history = append(history, fmt.Sprintf("%s: AppendBlock(<removed %s>)", bodyPath(b), blockDesc(mi)))
+			record()
+			b.w.AppendBlock(target)
+			delete(removedItems, target)
+			for i, rb := range removedBlocks {
+				if rb == target {
+					removedBlocks = append(removedBlocks[:i:i], removedBlocks[i+1:]...)
+					break
+				}
+			}
+			mi.touched = true
+			b.items = append(b.items, mi)
+			c12Parent[mi] = b
+			b.touchUp()
+			kinds["AppendBlock(moved)"] = true
 		case 9:
 			if len(mblocks) == 0 {
 				continue
